@@ -33,7 +33,7 @@ def replay_on_real_code(args, timeout=300):
     import json, fcntl
     cache_file = os.path.join(ROOT, 'build', 'hunt_cache.json')
     key = None
-    if args and args[0] in ('hunt-lang', 'hunt-sound'):
+    if args and args[0] in ('hunt-lang', 'hunt-sound', 'hunt-prop'):
         tk = _tree_key()
         if tk:
             key = tk + '|' + ' '.join(args)
@@ -108,18 +108,18 @@ def hunt(prop, unit, label, failure, repo):
         tried += 1
         if r['rc'] == 1: return {'args': args, 'output': r['output']}
         if r['rc'] < 0: return {'why': r['output']}
-    if label.startswith(HUNT_LANG) and not label.startswith(HUNT_SOUND):
-        r = replay_on_real_code(['hunt-lang', '--ignore-kf1'], timeout=600)
-        if r['rc'] == 1:
-            m = re.search(r'^failing input: (.*)$', r['output'], re.M)
-            if m: return {'args': shlex.split(m.group(1)), 'output': r['output']}
-        return {'why': 'no set of at most 3 words over {a,b}^<=3 (with the empty word) makes the real library violate soundness/exactness; %d directed candidates tried' % tried}
-    if label.startswith(HUNT_SOUND):
-        r = replay_on_real_code(['hunt-sound'], timeout=900)
+    notes = []
+    searches = []
+    if label.startswith(HUNT_SOUND): searches.append((['hunt-sound'], 'no set of at most 2 words of length <= 2 over {a,B,1,space} under any of the 256 conversion/case/repetition flag subsets makes the real library miss a test case'))
+    elif label.startswith(HUNT_LANG): searches.append((['hunt-lang', '--ignore-kf1'], 'no set of at most 3 words over {a,b}^<=3 (with the empty word) makes the real library violate soundness/exactness'))
+    if prop in ('C04', 'C06', 'C08', 'C11', 'C13', 'C15'): searches.append((['hunt-prop', prop], 'the property-level search hunt-prop %s finds no failing input' % prop))
+    for args, none_msg in searches:
+        r = replay_on_real_code(args, timeout=900)
         if r['rc'] == 1:
             m = re.search(r'^failing input: (.*)$', r['output'], re.M)
             if m:
-                args = shlex.split(m.group(1))
-                return {'args': args, 'output': r['output'] + replay_on_real_code(args)['output']}
-        return {'why': 'no set of at most 2 words of length <= 2 over {a,B,1,space} under any of the 256 conversion/case/repetition flag subsets makes the real library miss a test case; %d directed candidates tried' % tried}
-    return {'why': 'Verus gives no counterexample; %d directed candidate inputs of this obligation were replayed on the real library and none misbehaves' % tried}
+                found = shlex.split(m.group(1))
+                extra = replay_on_real_code(found)['output'] if args[0] == 'hunt-sound' else ''
+                return {'args': found, 'output': r['output'] + extra}
+        notes.append(none_msg)
+    return {'why': '; '.join(notes + ['Verus gives no counterexample; %d directed candidate inputs of this obligation were replayed on the real library and none misbehaves' % tried])}
